@@ -23,6 +23,10 @@ N13 `[f(x) for x in xs]` / `(f(x) for x in xs)` (one plain name f applied to the
 N14 `x = []` directly followed by `for t in it: [if c:] x.append(E)` (nothing else in the loop)  ->  `x = [E for t in it if c]`
     (the comprehension is the canonical form of "collect E for every element"; rules read both through one view)
 N15 `while (x := E) <op> Y: body`  ->  `while True: x = E; if <negated test on x>: break; body`   (no else clause)
+N16 `getattr(x, "name")` with a literal identifier and no default  ->  `x.name`
+N17 copy coalescing: in one statement list, `x = t` where every other occurrence of the local t lies in the statements
+    before it (from t's first occurrence on) and x does not occur in that stretch: t is renamed to x there and the copy
+    is dropped (`tmp = {}; tmp[k] = v; fields = tmp`  ->  `fields = {}; fields[k] = v`)
 N7  (Program level, propagate_constants) a name that resolves to a module-level constant of the package bound exactly
     once to a str/bytes/number/bool/None literal is replaced by that literal, so that a literal and a named
     constant with the same value are the same thing to every rule.
@@ -175,6 +179,9 @@ class _N3456(ast.NodeTransformer):
             m = self._as_map(node.args[0])
             if m is not None:
                 node.args[0] = m
+        if isinstance(node.func, ast.Name) and node.func.id == "getattr" and len(node.args) == 2 and not node.keywords \
+                and isinstance(node.args[1], ast.Constant) and isinstance(node.args[1].value, str) and node.args[1].value.isidentifier():
+            return ast.copy_location(ast.Attribute(value=node.args[0], attr=node.args[1].value, ctx=ast.Load()), node)
         if isinstance(node.func, ast.Name) and node.func.id == "dict" and len(node.args) == 1 and not node.keywords \
                 and isinstance(node.args[0], (ast.GeneratorExp, ast.ListComp)) and isinstance(node.args[0].elt, ast.Tuple) and len(node.args[0].elt.elts) == 2:
             c = node.args[0]
@@ -437,10 +444,91 @@ def _n9_function(func):
             fix_adjacent(v)
 
 
+def _n17_function(func):
+    names = _own_names(func)
+    nested = {n.id for n, in_nested in names if in_nested}
+    params = {a.arg for a in func.args.posonlyargs + func.args.args + func.args.kwonlyargs}
+    for a in (func.args.vararg, func.args.kwarg):
+        if a is not None:
+            params.add(a.arg)
+    declared = set()
+    for x in ast.walk(func):
+        if isinstance(x, (ast.Global, ast.Nonlocal)):
+            declared |= set(x.names)
+
+    def occurrences(nodes, name):
+        k = 0
+        for nd in nodes:
+            for y in ast.walk(nd):
+                if isinstance(y, ast.Name) and y.id == name:
+                    k += 1
+                elif isinstance(y, ast.ExceptHandler) and y.name == name:
+                    k += 1
+        return k
+    total = {}
+    for n, in_nested in names:
+        total[n.id] = total.get(n.id, 0) + 1
+
+    class Ren(ast.NodeTransformer):
+        def __init__(self, a, b):
+            self.a, self.b = a, b
+
+        def visit_Name(self, node):
+            if node.id == self.a:
+                node.id = self.b
+            return node
+
+        def visit_FunctionDef(self, node):
+            return node
+
+        visit_AsyncFunctionDef = visit_Lambda = visit_ClassDef = visit_FunctionDef
+
+    def fix(stmts):
+        changed = False
+        k = 0
+        while k < len(stmts):
+            st = stmts[k]
+            if isinstance(st, ast.Assign) and len(st.targets) == 1 and isinstance(st.targets[0], ast.Name) and isinstance(st.value, ast.Name):
+                x, t = st.targets[0].id, st.value.id
+                if x != t and t not in params and t not in nested and t not in declared and x not in nested and x not in declared:
+                    first = next((j for j in range(k) if occurrences([stmts[j]], t)), None)
+                    if first is not None and occurrences(stmts[first:k], t) + 1 == total.get(t, 0) and occurrences(stmts[first:k], x) == 0:
+                        # the first occurrence must be a plain binding of t (not a read of an earlier value)
+                        f0 = stmts[first]
+                        binds = isinstance(f0, ast.Assign) and len(f0.targets) == 1 and isinstance(f0.targets[0], ast.Name) and f0.targets[0].id == t \
+                            and not any(isinstance(y, ast.Name) and y.id == t for y in ast.walk(f0.value))
+                        if binds:
+                            for j in range(first, k):
+                                stmts[j] = Ren(t, x).visit(stmts[j])
+                            total[x] = total.get(x, 0) + total.get(t, 0) - 2
+                            total[t] = 0
+                            del stmts[k]
+                            changed = True
+                            continue
+            k += 1
+        return changed
+
+    def blocks():
+        for x in ast.walk(func):
+            if x is not func and isinstance(x, (ast.FunctionDef, ast.AsyncFunctionDef, ast.ClassDef, ast.Lambda)):
+                continue
+            for field in ("body", "orelse", "finalbody"):
+                v = getattr(x, field, None)
+                if isinstance(v, list) and v and isinstance(v[0], ast.stmt):
+                    yield v
+            if isinstance(x, ast.ExceptHandler):
+                yield x.body
+    for _ in range(3):
+        if not any([fix(v) for v in list(blocks())]):
+            break
+
+
 def _n9(tree):
     for f in ast.walk(tree):
         if isinstance(f, (ast.FunctionDef, ast.AsyncFunctionDef)):
+            _n17_function(f)
             _n9_function(f)
+            _n17_function(f)
 
 
 SIMPLE = (str, bytes, int, float, bool, type(None))
